@@ -43,11 +43,11 @@ def nrefs(it, b):
 def store_prims(it):
     """name -> (k bits added, n refs added, apply(builder))"""
     hp = Sym('hp', ty='bytes', n=32, key=('hp',))
-    wc = Sym('wc', ty='int', not_none=True, key=('wc',))
+    wc = Sym('wc', ty='int', not_none=True, key=('wc',), lo=-128, hi=127)
     P = {}
     for n in (1, 8, 64, 256, 257):
-        P[f'store_uint({n})'] = (n, 0, lambda b, n=n: call(it, b, 'store_uint', Sym('v', ty='int', not_none=True), K(n)))
-        P[f'store_int({n})'] = (n, 0, lambda b, n=n: call(it, b, 'store_int', Sym('v', ty='int', not_none=True), K(n)))
+        P[f'store_uint({n})'] = (n, 0, lambda b, n=n: call(it, b, 'store_uint', Sym('v', ty='int', not_none=True, lo=0, hi=(1 << n) - 1), K(n)))
+        P[f'store_int({n})'] = (n, 0, lambda b, n=n: call(it, b, 'store_int', Sym('v', ty='int', not_none=True, lo=-(1 << (n - 1)), hi=(1 << (n - 1)) - 1), K(n)))
     P['store_bit'] = (1, 0, lambda b: call(it, b, 'store_bit', K(1)))
     P['store_bit(str)'] = (1, 0, lambda b: call(it, b, 'store_bit', K('1')))
     P['store_bool'] = (1, 0, lambda b: call(it, b, 'store_bool', K(True)))
@@ -70,7 +70,7 @@ def store_prims(it):
     P['store_address(std)'] = (267, 0, std)
 
     def ext(b):
-        a = it.construct(it.prog.cls('ExternalAddress'), [Sym('e', ty='int', not_none=True), K(20)], {})
+        a = it.construct(it.prog.cls('ExternalAddress'), [Sym('e', ty='int', not_none=True, lo=0, hi=(1 << 20) - 1), K(20)], {})
         return call(it, b, 'store_address', a)
     P['store_address(ext20)'] = (31, 0, ext)
     P['store_maybe_ref(None)'] = (1, 0, lambda b: call(it, b, 'store_maybe_ref', K(None)))
@@ -308,6 +308,23 @@ def check(run):
             run.check(got == fits, 'D3', f'Builder.{meth}' if got != fits else f'range:{meth}{lbits or ""}:{v if abs(v) < 1000 else ("-" if v < 0 else "") + "2^" + str(abs(v).bit_length())}',
                       f'{meth}({v if abs(v) < 1 << 40 else hex(v)}{"" if lbits is None else ", " + str(lbits)}): {"accepted" if got else "rejected"}, must be {"accepted" if fits else "rejected (the value does not fit the field)"}', ws)
 
+    # addresses: the workchain is an int8, an external address is `len` bits wide - a value outside the field must be refused, not wrapped
+    A_, EA_ = prog.cls('Address'), prog.cls('ExternalAddress')
+    for what, mkaddr, fits in [(f'store_address(Address(workchain {wc_}))', (lambda it_, wc_=wc_: it_.construct(A_, [ListV([K(wc_), K(bytes(32))], tup=True)], {})), -128 <= wc_ <= 127)
+                               for wc_ in (-128, 127, 0, -1, 128, -129, 255, 300, -300)] + \
+                              [(f'store_address(ExternalAddress({v_}, {n_}))', (lambda it_, v_=v_, n_=n_: it_.construct(EA_, [K(v_), K(n_)], {})), 0 <= v_ < (1 << n_))
+                               for v_, n_ in ((255, 8), (256, 8), (1, 1), (2, 1), ((1 << 20) - 1, 20), (1 << 20, 20), (-1, 8))]:
+        it = Interp(prog)
+        b = builder(it)
+        try:
+            call(it, b, 'store_address', mkaddr(it))
+            got = True
+        except RaiseEx:
+            got = False
+        run.evaluations += 1
+        run.check(got == fits, 'D3', 'Builder.store_address' if got != fits else f'range:{what}',
+                  f'{what}: {"accepted" if got else "rejected"}, must be {"accepted" if fits else "rejected (the value does not fit the field)"}', ws)
+
     # ---- D4 read bounds on every route
     wl = prog.where(prog.method('Slice', 'load_uint'))
 
@@ -367,7 +384,7 @@ def check(run):
             it = Interp(prog)
             b = builder(it)
             if meth == 'load_address':
-                a = it.construct(prog.cls('Address'), [ListV([Sym('wc', ty='int', not_none=True), Sym('hp', ty='bytes', n=32)], tup=True)], {})
+                a = it.construct(prog.cls('Address'), [ListV([Sym('wc', ty='int', not_none=True, lo=-128, hi=127), Sym('hp', ty='bytes', n=32)], tup=True)], {})
                 call(it, b, 'store_address', a)
             else:
                 make(b)
